@@ -22,9 +22,9 @@ from sim.runner import violation
 
 EPS = np.finfo(float).eps
 RAISING = ('mul0', 'rmul0', 'add_str', 'mul_str', 'mul_list', 'add_none',
-           'mul_complex', 'add_dict')
+           'mul_complex', 'add_dict', 'np_rmul0', 'np_mul0')
 IDENT = ('add0', 'radd0', 'sub0', 'mul1', 'rmul1', 'div1', 'add0.0',
-         'mul1.0')
+         'mul1.0', 'np_radd0', 'np_rmul1', 'np_mul1', 'np_int_rmul1')
 
 
 def num(x):
